@@ -12,10 +12,10 @@ SIZES = {
     # (synth scenarios, steps each, micro BFS scenarios, shipped steps,
     #  generated scenarios)
     "quick": dict(n_synth=320, steps=320, n_micro=40, shipped_steps=300,
-                  n_gen=10, bfs_cap=1500, n_large=2, n_ring=24),
+                  n_gen=10, bfs_cap=1500, n_large=2, n_ring=24, n_twin=30),
     "thorough": dict(n_synth=12000, steps=700, n_micro=1800,
                      shipped_steps=2000, n_gen=240, bfs_cap=8000, n_large=24,
-                     n_ring=1200),
+                     n_ring=1200, n_twin=1500),
 }
 BFS_SHIPPED = {"quick": ["tiny", "tiny-hard"],
                "thorough": ["tiny", "tiny-hard", "tiny-small", "small",
@@ -42,6 +42,8 @@ def build_cases(tier):
         cases.append(("generated_large", i))
     for i in range(z.get("n_ring", 24)):
         cases.append(("ring", i))
+    for i in range(z.get("n_twin", 30)):
+        cases.append(("twin", i))
     return cases
 
 
@@ -88,6 +90,13 @@ def episode(prop, mon, subj, rng, nsteps, acc):
                 mon.on_trans(subj.step(None, seed, arg=NoOp(), desc=nd))
             acc.count("noop_steps")
             continue
+        if rng.random() < 0.04 and prop not in ("C07", "C13"):
+            # the same action demanding ROOT on the pivot / on the host
+            arg, dd = subj.root_requiring(i)
+            if arg is not None:
+                mon.on_trans(subj.step(i, seed, arg=arg, desc=dd))
+                acc.count("steps_with_req_access_root")
+                continue
         if prop == "C07":
             lo = subj.seed_for(i, True, rng)
             hi = subj.seed_for(i, False, rng)
@@ -216,6 +225,17 @@ def run(prop, tier, seed, shard, nshards):
                 sp = synth.synth(rng, tier)
                 subj = Subject(sp, route=sp.origin.split(":")[1], **modes)
                 episode(prop, mon, subj, rng, z["steps"], acc)
+            elif ctype == "twin":
+                # a scenario, then - in the same process, right after it - a
+                # twin of the same shape with renamed or re-ordered names
+                from ..twins import any_twin
+                sp0 = synth.synth(rng, "quick", max_hosts=8, live=1.0)
+                route = sp0.origin.split(":")[1]
+                warm = Subject(sp0, route=route, **modes)
+                episode(prop, MONITORS[prop](acc), warm, rng, 40, acc)
+                sp = any_twin(sp0, rng)
+                subj = Subject(sp, route=route, **modes)
+                episode(prop, mon, subj, rng, z["steps"] // 2, acc)
             elif ctype == "ring":
                 sp = synth.ring(rng)
                 subj = Subject(sp, route=sp.origin.split(":")[1], **modes)
